@@ -26,19 +26,42 @@ theorem export_checks_sound (ps : List String) (hu : checkUnique ps = true) (hl 
     ps.Nodup ∧ PrefixFree (ps.map splitSlash) :=
   ⟨checkUnique_nodup ps hu, checks_sound ps hu hl⟩
 
-/-- The same for `_export_jobs` as a whole: whenever it gets as far as copying (for `path=None`,
-    a format string or a callable) the paths it copies to are injective and prefix-free. -/
+/-- The same for `_export_jobs` as a whole, on the places the paths denote: whenever it gets as far
+    as copying, every normalised path is relative and below the target (not absolute, no leading
+    `..`), the normalised paths are prefix-free (so `a`, `a/`, `a/.` cannot coexist), and the target
+    root itself is only used by a single job. -/
 theorem export_accepts_sound (spec : PathSpec) (jobs : List (String × JVal)) (ps : List String)
-    (hspec : specChecksUnique spec = true) (h : exportPaths spec jobs = .ok ps) :
-    ps.Nodup ∧ PrefixFree (ps.map splitSlash) := by
+    (h : exportPaths spec jobs = .ok ps) :
+    (∀ n ∈ ps.map normpath, escapes n = false)
+    ∧ PrefixFree ((ps.map normpath).map splitSlash)
+    ∧ ("." ∈ ps.map normpath → ps.length ≤ 1) := by
   unfold exportPaths at h
-  split at h
-  · cases h
-  · rename_i ps' _
-    rw [hspec] at h
-    cases hu : checkUnique ps' <;> cases hl : checkLeafNode ps' <;> simp [hu, hl] at h
-    subst h
-    exact export_checks_sound ps' hu hl
+  cases hr : rawPaths spec jobs with
+  | error e => simp [hr] at h
+  | ok ps' =>
+    simp only [hr] at h
+    cases hcn : checkNormalized (ps'.map normpath) with
+    | false => simp [hcn] at h
+    | true =>
+      simp only [hcn, Bool.not_true, Bool.false_eq_true, if_false] at h
+      have hps : ps' = ps := by
+        split at h
+        · cases h
+        · cases h; rfl
+      subst hps
+      simp only [checkNormalized, Bool.and_eq_true, Bool.not_eq_eq_eq_not, Bool.not_true] at hcn
+      obtain ⟨⟨⟨hesc, hu⟩, hroot⟩, hl⟩ := hcn
+      refine ⟨?_, checks_sound _ hu hl, ?_⟩
+      · intro n hmem
+        rw [List.any_eq_false] at hesc
+        cases hx : escapes n with
+        | false => rfl
+        | true => exact absurd hx (hesc n hmem)
+      · intro hdot
+        have hc := List.contains_iff_mem.mpr hdot
+        rw [hc] at hroot
+        simp only [Bool.true_and, decide_eq_false_iff_not, Nat.not_lt, List.length_map] at hroot
+        exact hroot
 
 /-- The one-pass check of the pinned tree was weaker (F-16c, repaired): it accepts a node that comes
     before its leaf although the two-pass check rejects the pair. -/
@@ -69,14 +92,18 @@ theorem export_complete (P : Project) (ds : List Comps) :
 /-! ### export ∘ import = identity -/
 
 /-- zip: importing the exported members into an empty project gives back exactly the exported
-    jobs.  `_partial`: under the extra hypothesis `NoNestedSp`. -/
+    jobs.  `_partial`: under the extra hypotheses `NoNestedSp` and — for zip only, known finding
+    F-16e: `copytree_to_zip` does not store empty directories — `NoEmptyDirs`. -/
 theorem valid_paths_roundtrip_zip_partial (hash : JVal → String) (P : Project) (ds : List Comps)
-    (hlen : P.length = ds.length) (hwf : WF hash P) (hnn : NoNestedSp P) (hpf : PrefixFree ds)
-    (order : List Comps) :
+    (hlen : P.length = ds.length) (hwf : WF hash P) (hnn : NoNestedSp P) (hne : NoEmptyDirs P)
+    (hpf : PrefixFree ds) (order : List Comps) :
     (importFrom .zip hash .none [] P ds order).err = none
     ∧ ProjEquiv (importFrom .zip hash .none [] P ds order).proj P := by
   have h := zip_roundtrip (goodExport_of hwf hnn hpf)
   rw [zip_fst_eq hlen] at h
+  show (importZip hash .none [] (zipMembers P ds)).err = none
+    ∧ ProjEquiv (importZip hash .none [] (zipMembers P ds)).proj P
+  rw [zipMembers_eq ds hne]
   exact ⟨h.1, h.2.1, h.2.2⟩
 
 /-- tar (and compressed tar): the same. -/
@@ -119,12 +146,40 @@ theorem empty_dir_export_raises_first (hash : JVal → String) (schema : Schema)
     (ds order : List Comps) :
     importFrom .dir hash schema dst [] ds order = ⟨dst, some .valueError, []⟩ := rfl
 
-/-- The full statement (no `NoNestedSp`; directories visited parents first, as `sorted` /
-    `os.walk` do).  Believed true of the model, NOT proved: the proofs above do not use the
-    visiting order, which is what makes a nested state point file harmless. -/
+/-- The full statement (neither `NoNestedSp` nor `NoEmptyDirs`; directories visited parents first, as
+    `sorted` / `os.walk` do). -/
 def valid_paths_roundtrip_full : Prop :=
   ∀ (hash : JVal → String) (P : Project) (ds : List Comps) (t : Target),
     P.length = ds.length → (t = .dir → P ≠ []) → WF hash P → PrefixFree ds →
+    (importFrom t hash .none [] P ds (walkOrder (exportMembers P ds))).err = none
+    ∧ ProjEquiv (importFrom t hash .none [] P ds (walkOrder (exportMembers P ds))).proj P
+
+private def hE : JVal → String := fun _ => "e"
+private def jE : Job := ⟨"e", [([fnSp], .sp .null), (["emptydir"], .dir)]⟩
+
+/-- It is FALSE of the model, as it is of the code (F-16e, known finding): a job with an empty
+    sub-directory comes back from a zip archive without it. -/
+theorem valid_paths_roundtrip_full_false : ¬ valid_paths_roundtrip_full := by
+  intro h
+  have h' := h hE [jE] [[]] .zip rfl (by intro hh; cases hh)
+    ⟨by decide, fun j hj => by
+        simp only [List.mem_singleton] at hj; subst hj; exact ⟨.null, rfl, rfl⟩,
+      fun j hj fc hfc => by
+        simp only [List.mem_singleton] at hj; subst hj
+        simp only [jE, List.mem_cons, List.not_mem_nil, or_false] at hfc
+        rcases hfc with rfl | rfl <;> simp⟩
+    (by unfold PrefixFree; exact List.pairwise_singleton _ _)
+  have hmem := (h'.2.1 jE).mpr List.mem_cons_self
+  have hlen : ∀ j ∈ (importFrom .zip hE .none [] [jE] [[]] (walkOrder (exportMembers [jE] [[]]))).proj,
+      j.files.length = 1 := by decide
+  exact absurd (hlen jE hmem) (by decide)
+
+/-- What remains open: the statement without `NoNestedSp` but with `NoEmptyDirs` for zip.  Believed true
+    of the model, NOT proved: the proofs above do not use the visiting order, which is what makes a
+    nested state point file harmless. -/
+def valid_paths_roundtrip_nested : Prop :=
+  ∀ (hash : JVal → String) (P : Project) (ds : List Comps) (t : Target),
+    P.length = ds.length → (t = .dir → P ≠ []) → (t = .zip → NoEmptyDirs P) → WF hash P → PrefixFree ds →
     (importFrom t hash .none [] P ds (walkOrder (exportMembers P ds))).err = none
     ∧ ProjEquiv (importFrom t hash .none [] P ds (walkOrder (exportMembers P ds))).proj P
 
@@ -133,10 +188,12 @@ def valid_paths_roundtrip_full : Prop :=
 /-- zip: if the export contains a job whose id the destination already holds, the import raises
     DestinationExistsError before anything is copied: destination unchanged, nothing written. -/
 theorem import_no_overwrite_zip (hash : JVal → String) (P : Project) (ds : List Comps) (dst : Project)
-    (hwf : WF hash P) (hnn : NoNestedSp P) (hpf : PrefixFree ds)
+    (hwf : WF hash P) (hnn : NoNestedSp P) (hne : NoEmptyDirs P) (hpf : PrefixFree ds)
     (hex : ∃ e ∈ P.zip ds, hasId e.1.id dst = true) (order : List Comps) :
-    importFrom .zip hash .none dst P ds order = ⟨dst, some .destinationExists, []⟩ :=
-  zip_exists (goodExport_of hwf hnn hpf) dst hex
+    importFrom .zip hash .none dst P ds order = ⟨dst, some .destinationExists, []⟩ := by
+  show importZip hash .none dst (zipMembers P ds) = _
+  rw [zipMembers_eq ds hne]
+  exact zip_exists (goodExport_of hwf hnn hpf) dst hex
 
 theorem import_no_overwrite_tar (hash : JVal → String) (P : Project) (ds : List Comps) (dst : Project)
     (hwf : WF hash P) (hnn : NoNestedSp P) (hpf : PrefixFree ds)
@@ -292,16 +349,33 @@ private theorem ex_good : WF h0 [j1, j2] ∧ NoNestedSp [j1, j2] ∧ PrefixFree 
 example : WF h0 [j1, j2] ∧ NoNestedSp [j1, j2] ∧ PrefixFree [["a", "1"], ["a", "10"]]
     ∧ [j1, j2].length = [["a", "1"], ["a", "10"]].length ∧ [j1, j2] ≠ [] := ex_good
 
+private theorem ex_nodirs : NoEmptyDirs [j1, j2] := by
+  intro j hj fc hfc
+  simp only [List.mem_cons, List.not_mem_nil, or_false] at hj
+  rcases hj with rfl | rfl <;> simp only [j1, j2, List.mem_cons, List.not_mem_nil, or_false] at hfc <;>
+    rcases hfc with rfl | rfl <;> rfl
+
+example : NoEmptyDirs [j1, j2] := ex_nodirs
+
 /-- hypotheses of `export_checks_sound` / `export_accepts_sound` -/
 example : checkUnique ["a/1", "a/10", "b"] = true ∧ checkLeafNode ["a/1", "a/10", "b"] = true := by decide
+
+/-- hypothesis of `export_accepts_sound`: an accepted export whose second path is not in normal form;
+    and the repaired checks refuse `..`, absolute paths and `b` next to `b/.` -/
+example : exportPaths (.call ["a/1", "b/"]) [("i", .null), ("j", .null)] = .ok ["a/1", "b/"]
+    ∧ checkNormalized (["../y", "z"].map normpath) = false
+    ∧ checkNormalized (["/abs", "z"].map normpath) = false
+    ∧ checkNormalized (["b", "b/."].map normpath) = false
+    ∧ checkNormalized (["", "z"].map normpath) = false := ⟨rfl, rfl, rfl, rfl, rfl⟩
 
 /-- hypothesis of `import_no_overwrite_*`: the destination already holds job "one" -/
 example : ∃ e ∈ [j1, j2].zip [["a", "1"], ["a", "10"]], hasId e.1.id [j1] = true :=
   ⟨(j1, ["a", "1"]), by simp, by decide⟩
 
 /-- hypothesis of `raise_before_copy_zip`: that import does raise -/
-example : (importZip h0 .none [j1] (exportMembers [j1, j2] [["a", "1"], ["a", "10"]])).err ≠ none := by
-  have := import_no_overwrite_zip h0 [j1, j2] [["a", "1"], ["a", "10"]] [j1] ex_good.1 ex_good.2.1 ex_good.2.2.1
+example : (importZip h0 .none [j1] (zipMembers [j1, j2] [["a", "1"], ["a", "10"]])).err ≠ none := by
+  have := import_no_overwrite_zip h0 [j1, j2] [["a", "1"], ["a", "10"]] [j1] ex_good.1 ex_good.2.1 ex_nodirs
+    ex_good.2.2.1
     ⟨(j1, ["a", "1"]), by simp, by decide⟩ []
   simp only [importFrom] at this
   rw [this]
